@@ -169,6 +169,9 @@ def features_of(ir, text):
     return feats
 
 
+DEEP = [True]
+
+
 def build_case(kind, files, main, shape=None):
     """Compiles in-process; returns None when rejected, else the file set to build."""
     r = emb.compile_files(files, main=main)
@@ -177,7 +180,7 @@ def build_case(kind, files, main, shape=None):
     out = {}
     ir = r.ir
     out[main + ".h"] = r.header
-    drv = irdriver.IrDriver(ir, text=True)
+    drv = irdriver.IrDriver(ir, text=True, deep=DEEP[0])
     out["driver.cc"] = drv.source(main + ".h")
     out["other.cc"] = drv.second_tu(main + ".h")
     feats = features_of(ir, files[main])
@@ -195,7 +198,7 @@ def build_case(kind, files, main, shape=None):
     rn = emb.compile_files(files, main=main, enum_traits=False)
     if rn.accepted:
         out["nt/" + main + ".h"] = rn.header
-        drv2 = irdriver.IrDriver(rn.ir, text=False)
+        drv2 = irdriver.IrDriver(rn.ir, text=False, deep=DEEP[0])
         out["nt/driver.cc"] = drv2.source(main + ".h")
         for m in rn.ir.module:
             nm = m.source_file_name
@@ -258,8 +261,10 @@ def evaluate(ctx, stats, cases, tag, clang=False):
     jobs = []
     index = []
     configs = (QUICK_SYNTAX if ctx.quick else GXX_CONFIGS) + (CLANG_CONFIGS if clang else [])
-    for c in live:
-        for name, cmd in configs:
+    for ci, c in enumerate(live):
+        for k, (name, cmd) in enumerate(configs):
+            if ctx.quick and len(configs) == 2 and k != ci % 2:
+                continue  # quick: c++11 and c++17 alternate over the modules (c++14 is the linked build)
             jobs.append((c["dir"], "driver.cc", cmd, []))
             index.append((c, name))
         if "nt/driver.cc" in c["build"]:
@@ -302,8 +307,8 @@ def evaluate(ctx, stats, cases, tag, clang=False):
 def corpus_cases(ctx):
     corp = emb.corpus()
     names_ = [n for n in sorted(corp) if n.startswith("testdata/") and "/format/" not in n and "/golden/" not in n]
-    if ctx.quick:  # a seeded third of the corpus per quick run; all of it in the thorough tier
-        names_ = sorted(random.Random(ctx.seed).sample(names_, max(1, len(names_) // 3)))
+    if ctx.quick:  # a seeded quarter of the corpus per quick run; all of it in the thorough tier
+        names_ = sorted(random.Random(ctx.seed).sample(names_, max(1, len(names_) // 4)))
     return [build_case("corpus", dict(corp), n) for n in names_]
 
 
@@ -375,8 +380,9 @@ def run(ctx):
         "modules the compiler rejects are discarded; the compiler deciding to accept is not judged here (C13/C14)",
     ]
     stats = vlib.Stats()
+    DEEP[0] = not ctx.quick
     avoid = set(known_shapes(ctx))
-    nsh, per, per_names = ctx.pick((16, 3, 3), (16, 40, 24))
+    nsh, per, per_names = ctx.pick((16, 3, 2), (16, 40, 24))
     total = vlib.run_shards(shard, nsh, seed=ctx.seed, n=per, n_names=per_names, avoid=avoid)
     cases = total.extra.pop("_cases", [])
     t_gen = ctx.elapsed()
@@ -389,7 +395,7 @@ def run(ctx):
     S = names.shapes()
     for i, shp in enumerate(sorted(avoid)):
         if shp in S:
-            for j in range(2):
+            for j in range(1 if ctx.quick else 3):
                 sub = random.Random(ctx.seed * 31 + i * 7 + j)
                 shape, text = names.build(sub, avoid=set(S) - {shp})
                 known_cases.append(build_case("names", {"m.emb": text}, "m.emb", shape=shape))
